@@ -88,15 +88,15 @@ build_tests() {
 # per property: checks per shard (quick thorough), extra build needs
 conf() {
   case "$1" in
-    C01) Q=40   T=600 ;;
-    C02) Q=35   T=500 ;;
+    C01) Q=40   T=400 ;;
+    C02) Q=35   T=350 ;;
     C03) Q=150  T=2000 ;;
     C04) Q=50   T=700 ;;
     C05) Q=60   T=900 ;;
     C06) Q=150  T=2000 ;;
-    C07) Q=50   T=1200 ;;
+    C07) Q=50   T=600 ;;
     C08) Q=40   T=600 ;;
-    C09) Q=40   T=600 ;;
+    C09) Q=40   T=400 ;;
     C10) Q=15   T=300 ;;
     C11) Q=6    T=150 ;;
     C12) Q=100  T=1200 ;;
@@ -104,8 +104,8 @@ conf() {
     C14) Q=20   T=250 ;;
     C15) Q=20   T=300 ;;
     C16) Q=3000 T=60000; NEED=bigint ;;
-    C17) Q=300  T=20000;  NEED=maparr ;;
-    C18) Q=2000 T=60000 ;;
+    C17) Q=300  T=8000;  NEED=maparr ;;
+    C18) Q=2000 T=20000 ;;
     C19) Q=60   T=800 ;;
     C20) Q=3000 T=200000 ;;
     *) die2 "unknown property $1" ;;
